@@ -7,5 +7,6 @@ INVARIANT Full
 INVARIANT Same
 INVARIANT PadFits
 INVARIANT Helpers
+INVARIANT FilterAxes
 CHECK_DEADLOCK FALSE
 POSTCONDITION Export
